@@ -164,6 +164,24 @@ def st_int_cone(draw, m=None, max_extra=2):
 
 
 @st.composite
+def st_skew_cone(draw, m=None, max_extra=2):
+    """Image of a dyadic cone under integer shears: pointed and solid, but NOT centred on the diagonal
+    (it may contain vectors with negative coordinate sum, and (1,..,1) need not lie in its dual)."""
+    base = draw(st_dyadic_cone(m, max_extra))
+    W = np.array(base["W"], float)
+    mm = W.shape[1]
+    for _ in range(draw(st.integers(1, 2))):
+        i = draw(st.integers(0, mm - 1))
+        j = draw(st.integers(0, mm - 2))
+        j = j if j < i else j + 1
+        sft = draw(st.sampled_from([-2, -1, 1, 2]))
+        Tinv = np.eye(mm)
+        Tinv[i, j] = -sft  # inverse of the shear x_i += sft * x_j ; W' = W T^-1 describes the sheared cone
+        W = W @ Tinv
+    return {"kind": "W", "W": W.tolist()}
+
+
+@st.composite
 def st_diag_cone(draw, m=None, max_extra=3):
     """Unit-normal cone around the diagonal, half-angles 5..85 degrees, K = m..m+max_extra facets."""
     if m is None:
@@ -184,10 +202,11 @@ def st_diag_cone(draw, m=None, max_extra=3):
 
 def st_cone(m=None, exact_only=False, max_extra=3):
     if exact_only:
-        return st_dyadic_cone(m, max_extra)
+        return st.one_of(st_dyadic_cone(m, max_extra), st_skew_cone(m, min(2, max_extra)))
     if m == 4:
         return st.one_of(st_bundled(m), st_dyadic_cone(m, max_extra), st_diag_cone(m, max_extra))
-    return st.one_of(st_bundled(m), st_dyadic_cone(m, max_extra), st_diag_cone(m, max_extra), st_int_cone(m, min(2, max_extra)))
+    return st.one_of(st_bundled(m), st_dyadic_cone(m, max_extra), st_diag_cone(m, max_extra), st_int_cone(m, min(2, max_extra)),
+                     st_skew_cone(m, min(2, max_extra)))
 
 
 def cone_labels(spec):
